@@ -42,7 +42,7 @@ def run(ctx):
       continue
     d = Decider(truth={'normalize_grads': norm}, cmps={('weight_decay', '>', 0.0): wd, ('beta2', '!=', 1.0): not b2one, ('beta1', '!=', 1.0): not b1one},
                 calls={('callable', 'learning_rate'): False},
-                extra=lambda c, rank1=rank1: (rank1 if (c.op == 'cmp' and c.args[0] in ('<', '==') and 'ndim' in show(c, maxdepth=4)) else None))
+                extra=lambda c, rank1=rank1: (rank1 if (c.op == 'cmp' and c.args[0] in ('<', '==') and is_const(c.args[2]) and 'ndim' in show(c.args[1], maxdepth=4)) else None))
     ev = evaluator(m, decide=d, opaque={'_quantize_momentum'})
     r = ev.run(fu)
     ctx.evaluations += 1
